@@ -49,7 +49,10 @@ DICTNV = 'List (Nat × Sk.Val)'       # a dict index -> value, in insertion orde
 DICTVN = 'List (Sk.Val × Nat)'       # a dict value -> index
 COUT = 'Sk.COut'                     # what one constraint says about one line (oracle)
 LISTC = 'List Sk.COut'
+STRV = 'List Char'                   # a str VALUE the function computes on (a file name)
 PAIRB = 'Bool × Bool'
+OPTMATCH = 'Option (Option Nat)'      # re.Match or None: some none = matched, no group;
+MATCH = 'Option Nat'                  # some (some n) = matched, int(group(1)) = n
 BASE_OF = {}                          # optional type -> what it holds (filled below)
 NONE = 'None'                  # the constant None (coerced to the optional type it meets)
 OPTINT = 'Option Int'          # an int or None
@@ -57,7 +60,7 @@ OPTDT = 'Option  Int'          # a datetime (as seconds) or None: every non-None
                                # (two blanks: a distinct tag for the translator, same Lean type)
 
 
-BASE_OF.update({'Option Int': INT, 'Option  Int': INT, 'Option Sk.LLine': 'Sk.LLine',
+BASE_OF.update({'Option (Option Nat)': 'Option Nat', 'Option Int': INT, 'Option  Int': INT, 'Option Sk.LLine': 'Sk.LLine',
                 'Option Sk.Val': VAL, 'Option Nat': NAT, 'Option (List Nat)': LISTN})
 
 
@@ -72,6 +75,8 @@ class Ctx:
         self.ret = spec['ret']
         self.dead = set()
         self.dead_none = set()
+        self.strconst = {}          # local name -> string literal it currently holds
+        self.strlists = {}          # local name -> list of string literals
 
     def define(self, name, typ):
         if name not in self.types:
@@ -295,6 +300,10 @@ def prop(cx, e):
         return f'({t} ≠ [])'
     if ty == OPTLISTN:
         return f'({t} ≠ none ∧ {t} ≠ some [])'
+    if ty == OPTMATCH:
+        return f'({t} ≠ none)'            # a Match object is always truthy
+    if ty == MATCH:
+        return 'True'
     if ty == NAT:
         return f'({t} ≠ 0)'
     if ty == OPTINT:
@@ -309,6 +318,31 @@ def kwargs(e):
 def call(cx, e):
     src = unparse(e)
     fn = unparse(e.func)
+    if cx.spec.get('regexes') is not None:
+        rx = cx.spec['regexes']
+        if isinstance(e.func, ast.Attribute) and e.func.attr == 'match' and \
+                isinstance(e.func.value, ast.Call) and \
+                unparse(e.func.value.func) == 're.compile' and len(e.func.value.args) == 1 and \
+                len(e.args) == 1:
+            a = e.func.value.args[0]
+            pat = a.value if isinstance(a, ast.Constant) else cx.strconst.get(getattr(a, 'id', None))
+            if pat not in rx:
+                raise Untranslatable(f'regular expression {pat!r} has no model')
+            t, ty = expr(cx, e.args[0])
+            need(ty, STRV, src)
+            return f'({rx[pat]} {t})', OPTMATCH
+        if fn == 'len' and len(e.args) == 1 and isinstance(e.args[0], ast.Call) and \
+                isinstance(e.args[0].func, ast.Attribute) and e.args[0].func.attr == 'groups':
+            t, ty = expr(cx, e.args[0].func.value)
+            if ty == MATCH:
+                return f'(if {t} = none then (0 : Nat) else (1 : Nat))', NAT
+        if fn == 'int' and len(e.args) == 1 and isinstance(e.args[0], ast.Call) and \
+                isinstance(e.args[0].func, ast.Attribute) and e.args[0].func.attr == 'group' and \
+                unparse(e.args[0].args[0]) == '1':
+            t, ty = expr(cx, e.args[0].func.value)
+            if ty == MATCH:
+                # group(1) of a match without groups raises IndexError: outside the fragment
+                return f'({t}.getD 0)', NAT
     if fn in ('min', 'max') and len(e.args) >= 2 and not e.keywords:
         vals = [expr(cx, a) for a in e.args]
         for _, t in vals:
@@ -436,6 +470,11 @@ def block(cx, stmts, k, loop=None):
         if (td, tk, tv) == (DICTVN, VAL, NAT):
             return f'let {lname(dn)} : {td} := Sk.Py.dictSetV {d} {kx} {v}\n' + after()
         raise Untranslatable(f'statement {unparse(s)}')
+    if isinstance(s, ast.Assign) and len(s.targets) == 1 and isinstance(s.targets[0], ast.Name) \
+            and isinstance(s.value, ast.List) and s.value.elts and \
+            all(isinstance(x, ast.Constant) and isinstance(x.value, str) for x in s.value.elts):
+        cx.strlists[s.targets[0].id] = [x.value for x in s.value.elts]
+        return after()
     if isinstance(s, ast.Assign) and unparse(s.value) in cx.spec.get('effects', {}):
         # a call of an external function with a modelled effect (the pre-allocator)
         val_t, val_ty, updates = cx.spec['effects'][unparse(s.value)]
@@ -640,6 +679,24 @@ def block(cx, stmts, k, loop=None):
         te = block(cx, s.orelse, after, loop)
         cx.types, cx.order = saved_t, saved_o
         return f'if {c} then\n{ind(tb)}\nelse\n{ind(te)}'
+    if isinstance(s, ast.For) and isinstance(s.iter, ast.Name) and \
+            s.iter.id in cx.strlists and isinstance(s.target, ast.Name) and not s.orelse:
+        # a loop over a LITERAL list of strings is unrolled: in iteration i the loop variable is
+        # the i-th literal; `break` leaves to what follows, falling through goes to the next one
+        consts = cx.strlists[s.iter.id]
+
+        def iteration(i):
+            if i == len(consts):
+                return block(cx, rest, k, loop)
+            cx.strconst[s.target.id] = consts[i]
+
+            def nxt():
+                return iteration(i + 1)
+
+            def brk():
+                return block(cx, rest, k, loop)
+            return block(cx, list(s.body), nxt, (nxt, brk))
+        return iteration(0)
     if isinstance(s, ast.For) and not (isinstance(s.iter, ast.Call) and
                                        unparse(s.iter.func) == 'range'):
         # for x in <list> / for k, v in <dict>.items(): structural recursion over the list
@@ -930,7 +987,7 @@ def optional_test(cx, test):
     t = test
     if isinstance(t, ast.UnaryOp) and isinstance(t.op, ast.Not):
         neg, t = True, t.operand
-    if isinstance(t, ast.Name) and cx.types.get(t.id) in (OPTINT, OPTDT):
+    if isinstance(t, ast.Name) and cx.types.get(t.id) in (OPTINT, OPTDT, OPTMATCH):
         return t.id, neg, cx.types[t.id] == OPTINT
     if isinstance(t, ast.Compare) and len(t.ops) == 1 and isinstance(t.left, ast.Name) and \
             cx.types.get(t.left.id) in (OPTINT, OPTDT, OPTVAL, OPTNAT, OPTLISTN) and \
@@ -1154,6 +1211,14 @@ FUNCS = [
                  'self.extracted_datetime(line)': ('ts', OPTDT)},
          callees={'self._line_date_is_valid': 'line_date_is_valid'},
          state_out=['self__line_pass', 'self__line_fail'], py_args=['line'], fuel=False),
+    # logrotate_log_sort: the three regular expressions are the hand-written NameRx functions
+    # (compared with Python's re on every generated name by C09); translated is the control flow
+    # around them - the order of the filters, the default, the group handling
+    dict(name='logrotate_log_sort', file='search.py', cls=None, func='logrotate_log_sort',
+         params=[('fname', STRV)], ret=NAT, lean_ret='Nat', ctx='', ctx_args='',
+         regexes={r'\S+\.log$': 'Sk.Py.rxLive', r'\S+\.log\.(\d+)$': 'Sk.Py.rxRot',
+                  r'\S+\.log\.(\d+)\.gz?$': 'Sk.Py.rxRotGz'},
+         nat=True, static=True, fuel=False),
     # ResultStoreParallel.preallocate, read sequentially (one thread of control): the block it
     # returns and what it does to the shared allocation pointer
     dict(name='preallocate', file='results_store.py', cls='ResultStoreParallel',
@@ -1208,6 +1273,11 @@ FUNCS = [
 
 
 def find_func(tree, cls, func):
+    if cls is None:
+        for n in tree.body:
+            if isinstance(n, ast.FunctionDef) and n.name == func:
+                return n
+        raise Untranslatable(f'{func} not found')
     for n in tree.body:
         if isinstance(n, ast.ClassDef) and n.name == cls:
             for m in n.body:
